@@ -104,10 +104,11 @@ class G:
             return "gai %d %s %d %s%s" % (tok, name, fam, flags, svc)
         if kind == "ghbn":
             return "ghbn %d %s %d" % (tok, name, rng.choice([4, 6, 0]) if not self.sync else rng.choice([0, 0, 0, 4, 6]))
+        hi = 3 if self.sync else 200          # syncsub: few addresses, so that PTR answers come from the cache
         if kind == "ghba":
-            return "ghba %d %s" % (tok, rng.choice(["10.11.12.%d" % rng.randint(1, 200), "fd00::%x" % rng.randint(1, 999)]))
+            return "ghba %d %s" % (tok, rng.choice(["10.11.12.%d" % rng.randint(1, hi), "fd00::%x" % rng.randint(1, 5 * hi)]))
         if kind == "gni":
-            return "gni %d %s %d %s" % (tok, rng.choice(["10.11.12.%d" % rng.randint(1, 200), "fd00::%x" % rng.randint(1, 999)]),
+            return "gni %d %s %d %s" % (tok, rng.choice(["10.11.12.%d" % rng.randint(1, hi), "fd00::%x" % rng.randint(1, 5 * hi)]),
                                          rng.choice([0, 53, 80]), rng.choice(["0x0", "0x8", "0x4", "0x3", "0x1a"]))
         raise ValueError(kind)
 
@@ -387,11 +388,12 @@ def syncsub_step(g, p_script, allow):
         ops.append("fail %s %d %s" % (call, rng.choice([1, 1, 2, 2, 3]), err))
         if rng.random() < 0.3:
             ops.append("fail %s %d %s" % (rng.choice(["sendto", "socket"]), rng.choice([1, 2]), rng.choice(["ECONNREFUSED", "EMFILE"])))
-    kind = rng.choice(["gai", "gai", "gai", "ghbn", "ghbn", "search"])
+    kind = rng.choice(["gai", "gai", "gai", "ghbn", "ghbn", "search", "ghba", "gni"])
     name = rng.choice(g.cached) if g.cached and rng.random() < 0.7 else None
     ops.append(g.request(t, kind, name))
     if rng.random() < 0.5:
-        ops.append("rspall " + rng.choice(["an=A:1.2.3.4:300", "an=AAAA:[2001:db8::1]:300", "rcode=NXDOMAIN", "rcode=SERVFAIL", "rcode=NOERROR"]))
+        ops.append("rspall " + rng.choice(["an=A:1.2.3.4:300", "an=AAAA:[2001:db8::1]:300", "rcode=NXDOMAIN", "rcode=SERVFAIL", "rcode=NOERROR",
+                                           "an=PTR:host1.example:300"]))
         ops.append(rng.choice(["run", "proc"]))
     return ops
 
